@@ -69,6 +69,44 @@ pub fn own_scenarios() -> Vec<Scenario> {
     v
 }
 
+/// trees with several hundred entries: whatever buffers exist between walker and workers fill up
+pub fn pending_scenarios() -> Vec<Scenario> {
+    let mut v = vec![];
+    let files = |t: &mut Vec<Entry>| {
+        t.push(Entry::dir("files"));
+        for i in 0..300 {
+            t.push(Entry::file(&format!("files/f{:03}", i), "payload"));
+        }
+    };
+    for d in drivers() {
+        for w in [1usize, 3] {
+            // every worker dies on a special file whose destination is a non-empty directory (an error that is
+            // returned by the worker without a status update), then hundreds of operations are still to come
+            let mut t = vec![Entry::dir("specials"), Entry::dir("dst"), Entry::dir("dst/specials")];
+            for k in 0..w {
+                t.push(Entry::new(&format!("specials/fifo{}", k), Kind::Fifo));
+                t.push(Entry::dir(&format!("dst/specials/fifo{}", k)));
+                t.push(Entry::file(&format!("dst/specials/fifo{}/keep", k), "x"));
+            }
+            files(&mut t);
+            let ws = w.to_string();
+            v.push(Scenario::new(&format!("pending-dead-workers-{}-w{}", d, w), t, &["-r", "--no-progress", "--driver", d, "-w", &ws, "specials", "files", "dst"]));
+            // plain large tree for the injected failures
+            let mut t = vec![Entry::dir("dst")];
+            files(&mut t);
+            t.push(Entry::new("files/node", Kind::Fifo));
+            v.push(Scenario::new(&format!("pending-faults-{}-w{}", d, w), t, &["-r", "--no-progress", "--driver", d, "-w", &ws, "files", "dst"]));
+        }
+        // library client that keeps draining the channel after an error
+        let mut t = vec![Entry::dir("dst")];
+        files(&mut t);
+        let mut s = Scenario::new(&format!("pending-api-{}-w1", d), t, &["copy", d, "1", "max", "chan", "dst", "files"]);
+        s.prog = crate::scen::Prog::ApiProbe;
+        v.push(s);
+    }
+    v
+}
+
 pub fn run(ctx: &Ctx) -> Report {
     let mut rep = Report::new(
         "model_checking",
@@ -76,6 +114,9 @@ pub fn run(ctx: &Ctx) -> Report {
     );
     let j: Judge = &judge;
     for (name, jobs) in sets::schedule_jobs(ctx.quick(), &|s| s) {
+        if ctx.quick() && name.starts_with("tiny") {
+            continue; // the d<=2 search on the tiny scenario is C06's and C18's in the quick tier (time budget)
+        }
         let st = explore(&ctx.pool, jobs, j);
         rep.part(&name, st, serde_json::json!({"policies": ["P0", "P1"]}));
     }
@@ -89,6 +130,39 @@ pub fn run(ctx: &Ctx) -> Report {
     }
     let st = explore(&ctx.pool, jobs, j);
     rep.part("termination scenarios", st, serde_json::json!({"d": d}));
+    // more pending operations than any queue could hold while the consumers are dead or slow
+    let mut jobs = vec![];
+    for s in pending_scenarios() {
+        let nfifo = s.tree.iter().filter(|e| matches!(e.kind, Kind::Fifo) && e.path.starts_with("specials/")).count();
+        let driver = match s.args.iter().position(|a| a == "--driver") {
+            Some(i) => s.args[i + 1].clone(),
+            None => s.args[1].clone(),
+        };
+        let s = Arc::new(s);
+        let mut specs = base_specs();
+        // walker first / walker last
+        let (first, last): (Vec<String>, Vec<String>) = if driver == "parfile" {
+            (vec!["0.1.1".into(), "0.1".into(), "0".into()], vec!["0".into(), "0.1".into(), "0.1.2".into(), "0.1.3".into(), "0.1.4".into(), "0.1.1".into()])
+        } else {
+            (vec!["0.1.2".into(), "0.1.1".into(), "0.1".into(), "0".into()], vec!["0".into(), "0.1".into(), "0.1.1.*".into(), "0.1.1".into(), "0.1.2".into()])
+        };
+        specs.push(RunSpec::base(Policy::Prio(first)));
+        specs.push(RunSpec::base(Policy::Prio(last)));
+        for mut sp in specs {
+            sp.step_limit = 3_000_000;
+            jobs.push((s.clone(), sp.clone(), 0usize));
+            if nfifo == 0 {
+                // the same through injected failures: the first worker call of each class fails
+                for (call, en) in [("mknodat", libc::EPERM), ("copy_file_range", libc::EIO), ("openat", libc::EMFILE), ("ftruncate", libc::ENOSPC)] {
+                    let mut f = sp.clone();
+                    f.faults.push(crate::sup::Fault { call: call.into(), thread: None, nth: Some(if call == "openat" { 3 } else { 1 }), path_contains: if call == "openat" { Some("dst/".into()) } else { None }, action: crate::sup::Action::Errno(en) });
+                    jobs.push((s.clone(), f, 0usize));
+                }
+            }
+        }
+    }
+    let st = explore(&ctx.pool, jobs, j);
+    rep.part("more pending operations than a queue holds, workers dying or failing", st, serde_json::json!({"files": 300}));
     // fault runs: every single fault of C04's enumeration, re-judged for termination
     let (st, nsites) = c04::fault_sweep(ctx, j, if ctx.quick() { 0 } else { 1 });
     rep.part("single injected failures (C04's sites)", st, serde_json::json!({"sites": nsites, "deviations_on_top": if ctx.quick() { 0 } else { 1 }}));
